@@ -118,19 +118,23 @@ func oracleRun(c *vkit.Collector) {
 		if r[0] > 2*eps || r[1] > 4*eps {
 			m := oracleQ[i].rep()
 			m["true_lat_excess"], m["true_lng_excess"] = r[0], r[1]
-			violate(c, oracleQ[i].Kind+".true-latlng", "the exact latitude/longitude of a contained point lies outside RectBound() by more than rounding", m)
+			k := oracleQ[i].Kind + ".true-latlng"
+			if oracleQ[i].Kind == "RectBounder.latBudget(near-pole)" {
+				k = oracleQ[i].Kind
+			}
+			violate(c, k, "the exact latitude/longitude of a contained point lies outside RectBound() by more than rounding", m)
 		}
 	}
 	c.Extra["oracle"] = fmt.Sprintf("ok: %d points in %.1fs, worst true-lat excess %.3g, worst true-lng excess %.3g", len(res), time.Since(t0).Seconds(), worstLat, worstLng)
 }
 
-// violate records at most three violations per kind so that one frequent class cannot
+// violate records at most two violations per kind so that one frequent class cannot
 // crowd the others out of the collector's global limit.
 var violCount = map[string]int{}
 
 func violate(c *vkit.Collector, kind, desc string, replay interface{}) {
 	violCount[kind]++
-	if violCount[kind] <= 3 {
+	if violCount[kind] <= 2 {
 		c.Violate(kind, desc, replay)
 	}
 }
